@@ -5,6 +5,7 @@
 //  file LICENSE_1_0.txt or copy at http://www.boost.org/LICENSE_1_0.txt)
 
 #include <pika/config.hpp>
+#include <pika/config/verif_hooks.hpp>
 #include <pika/assert.hpp>
 #include <pika/coroutines/thread_enums.hpp>
 #include <pika/errors/throw_exception.hpp>
@@ -159,6 +160,7 @@ namespace pika::threads::detail {
 
             PIKA_ASSERT(thrd_data->get_state().state() == thread_schedule_state::active);
             PIKA_ASSERT(state != thread_schedule_state::active);
+            PIKA_VERIF_POINT(::pika::verif::yield_before_switch, thrd_data, static_cast<std::uint64_t>(state));
             statex = self_.yield(thread_result_type(state, invalid_thread_id));
             PIKA_ASSERT(
                 get_thread_id_data(id)->get_state().state() == thread_schedule_state::active);
